@@ -150,10 +150,19 @@ def generate(rs, tier):
   g = stream(rs, 'gen')
   if g.random() < 0.65:
     sp = P.gen_module(g, allow=('param', 'param', 'var', 'rng', 'child') + (('sow',) if g.random() < 0.35 else ()))
+    def plain_sows(spec):
+      # plain tuple-accumulating sows only, at every depth: a keep-the-latest reduce_fn replaces the stored value wholesale
+      # (and with it the box that carries a tag the user set on the wrapper's Variable) - legitimately
+      for ins in spec['body']:
+        if ins['i'] == 'sow':
+          ins.pop('how', None)
+        if isinstance(ins.get('mod'), dict):
+          plain_sows(ins['mod'])
+
+    plain_sows(sp)
     for ins in sp['body']:
       if ins['i'] == 'sow':
         ins['col'] = 'intermediates'
-        ins.pop('how', None)
     for ins in sp['body']:
       if ins['i'] == 'var' and g.random() < 0.3:
         ins['kind'] = 'pair'  # a NamedTuple-valued Linen variable: one NNX Variable per field on the wrapper
